@@ -26,6 +26,7 @@ func init() {
 			{ID: "R5", Desc: "existence decided by the undefined test, not the NULL tag (idiom)", Run: c06R5},
 			{ID: "R6", Desc: "condition evaluation is free of mutation (T-PURE)", Run: c06R6},
 			{ID: "R7", Desc: "missing-operand semantics of = and <> (T-TABLE)", Run: c06R7},
+			{ID: "R8", Desc: "objects are compared by identity only against the singletons or when both are known booleans (T-GUARD)", Run: c06R8},
 		},
 	})
 }
@@ -835,3 +836,51 @@ func c06R7(e *Engine) {
 }
 
 var _ = fmt.Sprint
+
+// c06R8: `x == y` on two evaluator objects compares pointers. That is meaningful only against the process-wide singletons
+// (TRUE, FALSE, UNDEFINED) or between two values known to be booleans (which are always those singletons). Anywhere else
+// it makes two *different* missing operands "equal" (both are the UNDEFINED singleton) and two equal numbers "different".
+func c06R8(e *Engine) {
+	g := e.newGuard()
+	objIface, _ := e.Pkgs["lang"].Types.Scope().Lookup("Object").Type().Underlying().(*types.Interface)
+	isObj := func(t types.Type) bool {
+		if objIface == nil {
+			return false
+		}
+		if _, ok := t.Underlying().(*types.Interface); ok {
+			return types.Identical(t.Underlying(), objIface) || types.Implements(t, objIface)
+		}
+		return types.Implements(t, objIface)
+	}
+	isSingleton := func(v ssa.Value) bool {
+		v = strip(v)
+		if u, ok := v.(*ssa.UnOp); ok {
+			if gl, ok := u.X.(*ssa.Global); ok && e.roleOf(gl.Pkg.Pkg) == "lang" {
+				return true
+			}
+		}
+		return isNilConst(v)
+	}
+	n := 0
+	for _, fn := range e.funcs("lang", "interp") {
+		instrs(fn, func(in ssa.Instruction) {
+			b, ok := in.(*ssa.BinOp)
+			if !ok || (b.Op != token.EQL && b.Op != token.NEQ) || !isObj(b.X.Type()) || !isObj(b.Y.Type()) {
+				return
+			}
+			n++
+			construct := e.fname(fn) + ":object-identity"
+			switch {
+			case isSingleton(b.X) || isSingleton(b.Y):
+				e.ob("R8", construct, e.ipos(in), Pass, false, "comparison with a singleton")
+			case g.dynTag(b.X, in.Block(), 0) == "BOOL" && g.dynTag(b.Y, in.Block(), 0) == "BOOL":
+				e.pass("R8", construct, e.ipos(in), "both operands are known booleans (always the TRUE/FALSE singletons)")
+			default:
+				e.fail("R8", construct, e.ipos(in), "two evaluator objects are compared by pointer identity without knowing they are booleans: two different missing operands are the same UNDEFINED object (so `missing_a = missing_b` becomes true and `<>` false) and two equal numbers or strings are different objects")
+			}
+		})
+	}
+	if n < 3 {
+		e.fail("R8", "count:R8", "-", "only %d object identity comparisons found", n)
+	}
+}
